@@ -27,6 +27,14 @@ def gen_calls(rng):
         elif r < 0.86: calls.append(['dump_all', [values.encode(values.build(rng, rng.choice([0, 1, 2]), [], odd_tz=False)) for _ in range(rng.choice([0, 1, 3]))], c02.opts(rng), be])
         elif r < 0.94: calls.append(['emit', events.enc_case(events.stream(rng, wf=rng.random() < 0.7), events.options(rng)), be])
         else: calls.append(['serialize', t, be])
+    # customised classes are *used* in between: registering is covered by C10, here the use must leave every class-level table alone
+    for _ in range(rng.choice([0, 1, 2, 3])):
+        be = rng.choice(['py', 'py', 'c'])
+        r = rng.random()
+        if r < 0.35: c = ['custom_dump_object', rng.choice(['MultiDumper', 'SiblingDumper', 'FD', 'MultiDumper']), be]
+        elif r < 0.5: c = ['custom_dump_env', values.encode(rng.choice([['${HOME}', 'foo', 'false', 'f', 'no'], {'k': '${x}', 'n': 'null'}, ['fee', 'fie', 'foe', 'fum'] * 3])), be]
+        else: c = ['custom_load', rng.choice(['EnvLoader', 'EnvLoader', 'MultiLoader', 'PathLoader', 'SL']), rng.choice(['[foo, ${HOME}, fee, false, f1, no way, 0x, 1e, .x]\n', 'a: ${x}\nb: tee\n', '!m:suffix [1, 2]\n', '- !m:a x\n- !m:b [y]\n', '{b: 1, a: 2}\n', '[{a: 1}]\n', '- foo\n- far\n- fab\n']), be]
+        calls.insert(rng.randrange(len(calls) + 1), c)
     return calls
 
 DOCS = ['%TAG ! tag:e.com,2000:\n--- !a 1\n', '--- !a 2\n', '%TAG !! tag:e.com,2000:app/\n--- !!str x\n', '--- !!str y\n', '--- !e!z w\n', '%TAG !e! tag:f.org,1:\n--- !e!z w\n', '--- [!a x, !!int 3]\n', 'a: 1\n', '--- &a [1, *a]\n', '%TAG !e! tag:e.com,2000:\n--- !e!x y\n', '--- !!str x\n', '--- &a x\n', '--- [&a 1, *a]\n...\n', '%YAML 1.1\n--- {k: v}\n', '--- |\n  text\n', "--- 'q'\n...\n", '--- \n- 1\n- 2\n',
